@@ -22,7 +22,7 @@ func init() {
 	core.Register(&core.Check{
 		ID:    "C08",
 		Level: "exploration",
-		Rule: "case = one recorded execution: (a) a single-goroutine crash-laboratory history (explicit multi-statement transactions, aborts, forced checkpoints, evictions in small pools) or (b) a concurrent run of 6-12 client goroutines issuing auto-commit DML through ExecuteSQL with forced checkpoints and statistics scans from extra goroutines. " +
+		Rule: "case = one recorded execution: (a) a single-goroutine crash-laboratory history (explicit multi-statement transactions, aborts, forced checkpoints, evictions in small pools) or (b) a concurrent run of 6-12 client goroutines issuing auto-commit DML and point reads through ExecuteSQL in small pools, with forced checkpoints and statistics scans from extra goroutines, or (c) 3-6 client goroutines running multi-statement transactions with aborts plus a concurrent checkpointer. In (b) and (c) the recorder does not serialise the engine's calls: a page write is stamped when it is CALLED, a log write when it has RETURNED, and log writes are optionally lengthened (0 / 0.2 / 1 ms) to model a slow fsync. " +
 			"Three offline rules over the I/O trace: PAGE - for every WritePage(p) whose LSN field L exceeds every LSN in the log bytes written before it, the record with LSN L (found anywhere in the run's log) must not be a tuple/new-page record targeting user heap page p; " +
 			"COMMIT - at every commit-return marker of a writing transaction the log bytes written so far contain its COMMIT record; SHAPE - after every WriteLog the log so far parses into complete records with per-transaction strictly increasing LSNs and a consistent prevLSN chain. " +
 			"Non-trivial event = a user-heap page write whose LSN became durable only through the immediately preceding log write; distinct by (case, page, LSN)",
@@ -59,7 +59,24 @@ func c08Run(env *core.Env, idx int) *core.CaseResult {
 		}
 		p := crashParams(r, env, bias)
 		p.Checkpoint = true
-		h, fatal := crashlab.Run(r, fmt.Sprintf("%s/c08_%d", env.TmpDir, idx), p)
+		multi := idx%8 == 5
+		var h *crashlab.History
+		var fatal string
+		if multi {
+			// (c) multi-statement transactions with aborts from several client goroutines, I/O calls not serialised by the recorder
+			p.Clients = 3 + r.Intn(4)
+			p.MemKB = []int{128, 192, 256}[r.Intn(3)]
+			if p.Clients > 4 && p.MemKB < 192 {
+				p.MemKB = 192
+			}
+			p.ConcurrentIO = true
+			p.LogDelay = []time.Duration{0, 200 * time.Microsecond, 1 * time.Millisecond}[r.Intn(3)]
+			p.ThinkTime = 200 * time.Microsecond
+			p.Steps *= 2
+			h, fatal = crashlab.RunConcurrent(r, fmt.Sprintf("%s/c08_%d", env.TmpDir, idx), p)
+		} else {
+			h, fatal = crashlab.Run(r, fmt.Sprintf("%s/c08_%d", env.TmpDir, idx), p)
+		}
 		if fatal != "" {
 			res.Inconclusive = "live history panicked: " + clipStr(fatal, 200)
 			return res
@@ -69,7 +86,8 @@ func c08Run(env *core.Env, idx int) *core.CaseResult {
 			if t.CommitRet >= 0 && len(t.Ops) > 0 {
 				tok := ""
 				for _, op := range t.Ops {
-					if op.Row != nil && len(op.Row) == 3 && (strings.HasPrefix(op.Row[2].S, fmt.Sprintf("t%ds", t.N)) || strings.HasPrefix(op.Row[2].S, fmt.Sprintf("t%da", t.N))) {
+					if op.Row != nil && len(op.Row) == 3 && (strings.HasPrefix(op.Row[2].S, fmt.Sprintf("t%ds", t.N)) || strings.HasPrefix(op.Row[2].S, fmt.Sprintf("t%da", t.N)) ||
+						(multi && strings.HasPrefix(op.Row[2].S, "c") && strings.Contains(op.Row[2].S, fmt.Sprintf("t%ds", t.N)))) {
 						if i := strings.Index(op.Row[2].S, "."); i > 0 {
 							tok = op.Row[2].S[:i+1]
 						}
@@ -80,7 +98,12 @@ func c08Run(env *core.Env, idx int) *core.CaseResult {
 		}
 		tags = []string{"single-goroutine"}
 		desc = describeHistory(h)
-		res.Add("single_goroutine_histories", 1)
+		if multi {
+			tags = []string{"concurrent", "multi-statement-clients"}
+			res.Add("concurrent_multi_statement_histories", 1)
+		} else {
+			res.Add("single_goroutine_histories", 1)
+		}
 	} else {
 		events, commits, desc = c08Concurrent(env, r, idx, res)
 		tags = []string{"concurrent"}
